@@ -84,7 +84,22 @@ pub fn gen_lines(rng: &mut Rng, n: usize, with_stop_inside: bool) -> Vec<Line> {
             2 | 3 | 4 | 5 => Line::U8(*rng.pick(&addrs), if rng.chance(1, 2) { *rng.pick(&[0u8, 0xff, 0x0f, 0xf0, 0xaa, 0x55]) } else { rng.u8() }),
             6 | 7 => Line::Port(1 + rng.below(11) as u8, rng.u8()),
             _ => {
-                let mut j = junk(rng);
+                let mut j = if rng.chance(1, 4) {
+                    // numbers that do not fit their field but whose low bits would be a well-formed
+                    // command on a location / port this session observes: not a valid line, so ignored
+                    let (a, p, val) = (*rng.pick(&addrs), 1 + rng.below(11), rng.u8() | 1);
+                    let hi = 1 + rng.below(15);
+                    match rng.below(6) {
+                        0 => format!("u8:{:x}{:08x}:{:x}", hi, a, val),
+                        1 => format!("u8:{:x}00000000{:08x}:{:x}", hi, a, val),
+                        2 => format!("u8:{:x}:{:x}{:02x}", a, hi, val),
+                        3 => format!("ioport:{:x}{:02x}:{:x}", hi, p, val),
+                        4 => format!("ioport:{:x}:{:x}{:02x}", p, hi, val),
+                        _ => format!("u8:{:x}{:06x}:{:x}", hi, a, val), // 25-28 bit address: not accessible
+                    }
+                } else {
+                    junk(rng)
+                };
                 while !is_really_junk(&j) {
                     j = junk(rng);
                 }
